@@ -510,7 +510,29 @@ func (e *Engine) addEnvIntrinsics() {
 			// opaque digits with the axiom equal seconds <=> equal text
 			return c.s.env.formatSym(c.s, c.w, t, layout)
 		}
-		return nativeTime(sec.(uint64), ns).UTC().Format(layout)
+		nt := nativeTime(sec.(uint64), ns).UTC()
+		if nv, ok := c.args[0].(Agg)[2].(NativeVal); ok {
+			nt = nt.In(nv.V.(*time.Location))
+		}
+		return nt.Format(layout)
+	}
+	in["time.FixedZone"] = func(c *callCtx) Value {
+		return NativeVal{time.FixedZone(c.str(0), c.int(1))}
+	}
+	in["(time.Time).In"] = func(c *callCtx) Value {
+		a := append(Agg(nil), c.args[0].(Agg)...)
+		a[2] = c.args[1]
+		return a
+	}
+	in["(time.Time).UTC"] = func(c *callCtx) Value {
+		a := append(Agg(nil), c.args[0].(Agg)...)
+		a[2] = Ptr{}
+		return a
+	}
+	in["(time.Time).Equal"] = func(c *callCtx) Value {
+		s1, n1 := c.s.timeParts(c.args[0])
+		s2, n2 := c.s.timeParts(c.args[1])
+		return andValue(c.s.eqValue(s1, s2), n1 == n2)
 	}
 	in["(time.Time).String"] = func(c *callCtx) Value { return "<time>" }
 	in["(time.Duration).String"] = func(c *callCtx) Value { return time.Duration(int64(c.args[0].(uint64))).String() }
@@ -763,6 +785,15 @@ func (e *Engine) addEnvIntrinsics() {
 			}
 			return c.s.env.readings[i]
 		}
+		in[p+"vDrain"] = func(c *callCtx) Value {
+			// let every other goroutine run as far as it can: the caller is enabled only when no other is
+			if c.s.drainBlocked(c.t) {
+				c.block = true
+			}
+			return nil
+		}
+		e.visible[p+"vDrain"] = true
+		e.yields[p+"vDrain"] = true
 		in[p+"vClockWindow"] = func(c *callCtx) Value {
 			c.s.env.window = c.int(0)
 			return nil
@@ -1318,6 +1349,24 @@ func (s *State) otherInside(t *Thread, sub string) bool {
 			if strings.Contains(fr.fn.String(), sub) {
 				return true
 			}
+		}
+	}
+	return false
+}
+
+// drainBlocked: some other thread (not itself waiting in vDrain) can still make progress.
+func (s *State) drainBlocked(self *Thread) bool {
+	for _, u := range s.threads {
+		if u == self || u.status != TRunnable {
+			continue
+		}
+		if in, ok := pendingInstr(u).(*ssa.Call); ok {
+			if f := in.Call.StaticCallee(); f != nil && strings.HasSuffix(f.Name(), "vDrain") {
+				continue
+			}
+		}
+		if s.enabled(u) {
+			return true
 		}
 	}
 	return false
